@@ -16,7 +16,7 @@ CORR = {
  'C09': 'Model/Core.v run_core (search batteries)', 'C10': 'Model/Core.v run_core (navigation, equality keys, translate)',
  'C11': 'Model/Core.v run_core on add-built and table-level databases', 'C12': 'Model/Core.v run_core in expand mode, add-built and table-level',
  'C13': 'Model/Taxonomy.v run_taxonomy (all digraphs up to the bound + random)', 'C14': 'Model/SimilarityFloat.v run_similarity (bit-exact floats)',
- 'C15': 'Model/Ic.v run_ic (exact rationals)', 'C16': '(none: runtime property; theorems reuse C13/C14 models)',
+ 'C15': 'Model/Ic.v run_ic, run_load (exact rationals)', 'C16': '(none: runtime property; theorems reuse C13/C14 models)',
  'C17': 'Model/Morphy.v run_morphy', 'C18': 'Model/Validate.v run_validate', 'C19': 'Model/IliFile.v run_add_ili_text (file text in; splitting into lines and fields, then Model/Add.v add_ili)', 'C20': 'Model/Lmf.v run_load on valid and mutated documents',
 }
 ORACLE = {
